@@ -351,7 +351,7 @@ def _extend_model(ctx, fn, loc):
         return isinstance(a, int) and not isinstance(a, bool)
     me = StubAtoms({'atype': symarray('t', (2,)), 'pos': symarray('x', (2, 3)), 'p': symarray('p', (2, 2))})
     other = StubAtoms({'atype': symarray('u', (3,)), 'pos': symarray('y', (3, 3)), 'q': symarray('q', (3,))})
-    for label, value, nval in (('Atoms with a differing property set', other, 3), ('a count', 2, 2)):
+    for label, value, nval in (('Atoms with a differing property set', other, 3), ('a count', 2, 2), ('a count of zero', 0, 0)):
         ev = SymEval(module_aliases(ctx.mod(AT)))
         before = {k: v.copy() for k, v in me.view.items()}
         try:
